@@ -53,6 +53,8 @@ SEEDED = {
     "C04-A": ["C04"], "C04-B": ["C04"], "C07-A": ["C07"], "C07-B": ["C07"], "C11-A": ["C11"], "C11-B": ["C11"], "C13-A": ["C13"], "C13-B": ["C13"],
     "X06-A": ["C06"], "X06-B": ["C08", "C06"], "X08-A": ["C08"], "X08-B": ["C08"], "X02-A": ["C02", "C03"], "X02-B": ["C03", "C02"],
     "X05-A": ["C05"], "X05-B": ["C05"], "X01-A": ["C01"], "X01-B": ["C01"], "X03-A": ["C03"], "X03-B": ["C03"],
+    "Y16-A": ["C16"], "Y16-B": ["C16"], "Y14-A": ["C14"], "Y14-B": ["C14"], "Y11-A": ["C11", "C01"], "Y11-B": ["C11"], "Y15-A": ["C15", "C08"], "Y15-B": ["C15"],
+    "Y12-A": ["C12"], "Y12-B": ["C12"], "Y13-A": ["C13"], "Y13-B": ["C13"], "Y17-A": ["C17"], "Y17-B": ["C17"], "Y04-A": ["C04"], "Y04-B": ["C04"],
     "C14-A": ["C14"], "C14-B": ["C14"], "C15-A": ["C15"], "C15-B": ["C15"], "C16-A": ["C16"], "C16-B": ["C16"],
 }
 
